@@ -286,7 +286,7 @@ def run_benign(prop, mod, res):
     spec.loader.exec_module(B)
     clean_rf = {(f.rule, f.func) for f in res.findings}
     out = {}
-    for variant in ('rename', 'swap', 'yoda', 'shift'):
+    for variant in ('rename', 'swap', 'yoda', 'shift', 'polarity', 'rettemp', 'privparam', 'elsify', 'unelse', 'comp2loop', 'kwstyle'):
         try:
             res2 = mod.run(B.build(variant), 'quick')
             new = sorted({(f.rule, f.func) for f in res2.findings} - clean_rf)
